@@ -15,7 +15,8 @@ theorem closeSession_wire (s : St) (h4 : s.outClosed = false → closeCount s.wi
     (∃ pre, (closeSession s).wire = pre ++ [.close] ∧ closeCount pre = 0) ∧
     (closeSession s).spc = s.spc ∧ (closeSession s).inLock = s.inLock ∧ (closeSession s).outLock = s.outLock ∧
     (closeSession s).outPinned = s.outPinned ∧ (closeSession s).inClosed = s.inClosed ∧
-    (closeSession s).pending = s.pending ∧ (closeSession s).expired = s.expired := by
+    (closeSession s).pending = s.pending ∧ (closeSession s).expired = s.expired ∧
+    (closeSession s).kept = s.kept := by
   unfold closeSession
   cases hc : s.outClosed with
   | true => simp [hc]; exact h5 hc
@@ -61,15 +62,15 @@ already shutting down) and no application goroutine holds a lock -/
 theorem progress (s : St) (inv : Inv s) (hf : s.inLock ≠ .app ∧ s.outLock ≠ .app)
     (hd : s.pending = some .close ∨ inShutdown s.spc = true) (hn : s.spc ≠ .notStarted)
     (hr : ∀ r, s.spc ≠ .returned r) :
-    ∃ s', serveStep s = some s' ∧ rank s'.spc < rank s.spc ∧ (s'.inLock ≠ .app ∧ s'.outLock ≠ .app) ∧
+    ∃ s', serveStep s = some s' ∧ rankS s' < rankS s ∧ (s'.inLock ≠ .app ∧ s'.outLock ≠ .app) ∧
       (s'.pending = some .close ∨ inShutdown s'.spc = true) ∧ s'.spc ≠ .notStarted := by
   obtain ⟨i1, i2, i3, i4, i5, i6, i8, i7⟩ := inv
   have cs := closeSession_wire s i4 i5
   obtain ⟨hf1, hf2⟩ := hf
   unfold serveStep
   cases hin : s.inLock <;> cases hout : s.outLock <;> cases hs : s.spc <;>
-    simp_all [holdsIn, holdsOut, rank, inShutdown] <;>
-    (try (split <;> simp_all [rank, inShutdown]))
+    simp_all [holdsIn, holdsOut, rank, rankS, inShutdown] <;>
+    (try ((repeat' split) <;> simp_all [rank, rankS, inShutdown] <;> (try omega)))
 
 theorem inv_serveRun (n : Nat) : ∀ s, Inv s → Inv (serveRun n s) := by
   induction n with
@@ -81,13 +82,14 @@ theorem inv_serveRun (n : Nat) : ∀ s, Inv s → Inv (serveRun n s) := by
     | none => exact h
     | some s' => exact ih s' (inv_serveStep s s' h hst)
 
-theorem returns (n : Nat) : ∀ s : St, Inv s → rank s.spc ≤ n → (s.inLock ≠ .app ∧ s.outLock ≠ .app) →
+theorem returns (n : Nat) : ∀ s : St, Inv s → rankS s ≤ n → (s.inLock ≠ .app ∧ s.outLock ≠ .app) →
     (s.pending = some .close ∨ inShutdown s.spc = true) → s.spc ≠ .notStarted →
     ∃ r, (serveRun n s).spc = .returned r := by
   induction n with
   | zero =>
     intro s _ hrk _ _ hn
-    cases hs : s.spc <;> simp [hs, rank] at hrk hn
+    have hrk' : rank s.spc = 0 := by unfold rankS at hrk; omega
+    cases hs : s.spc <;> simp [hs, rank] at hrk' hn
     exact ⟨_, by simp only [serveRun]; exact hs⟩
   | succ n ih =>
     intro s inv hrk hf hd hn
@@ -130,10 +132,13 @@ theorem never_stuck (s : St) (inv : Inv s) (hp : s.outPinned = false) (hnone : s
   by_cases hrd : s.spc = .reading
   · right; right; left
     simp only [hrd] at hnone
-    split at hnone
-    · cases hnone
-    · rename_i hexp
-      split at hnone <;> first | exact ⟨hrd, by assumption, by simpa using hexp⟩ | cases hnone
+    have key : s.pending = none ∧ s.expired = false := by
+      cases he : s.expired <;> cases hk : s.kept <;> cases hpd : s.pending <;> simp_all
+      all_goals (try (rename_i x; cases x with
+        | stanza b => cases b <;> simp_all
+        | close => simp_all
+        | bad => simp_all))
+    exact ⟨hrd, key.1, key.2⟩
   · cases hin : s.inLock <;> cases hout : s.outLock <;> cases hs : s.spc <;>
       simp_all [holdsIn, holdsOut, step, serveStep] <;>
       (try (split at hnone <;> simp_all))
